@@ -242,11 +242,10 @@ class Array(Base):
         return tuple(self._maybe_unit(a) for a in args)
 
     def _to_own_unit(self, arg):
-        if isinstance(arg, Quantity):
+        if not isinstance(arg, self.__class__):
+            # A Quantity, or a plain number or array (a dimensionless quantity)
             arg = self.__class__(arg)
-        if isinstance(arg, self.__class__):
-            return arg.to(self.unit)
-        return arg
+        return arg.to(self.unit)
 
     def _wrap_numpy(self, func, *args, **kwargs):
         if (
